@@ -747,7 +747,7 @@ func c14MySQL(t *testing.T, plan *kernel.Plan, keepLog bool) *kernel.Result {
 			}
 		}
 		if plan.Sw("cells") == 1 {
-			pw.DB.Corrupt = c14CorruptCell
+			pw.DB.Corrupt = c14CorruptCells()
 		}
 		run := pw.RunSession(owner, script)
 		for i, p := range pw.Panics {
@@ -769,25 +769,31 @@ func c14MySQL(t *testing.T, plan *kernel.Plan, keepLog bool) *kernel.Result {
 	return w.Finish()
 }
 
-// c14CorruptCell damages a stored envelope (storage fault).
-func c14CorruptCell(table string, row, col int, cell []byte) []byte {
-	if col < 2 || len(cell) < 8 {
-		return cell
-	}
-	c := append([]byte{}, cell...)
-	switch (row + col) % 5 {
-	case 4:
-		return c[:min(len(c), 31+(row*3+col)%4)]
-	case 0:
-		return c[:len(c)/2]
-	case 1:
-		c[8+(row*7)%min(40, len(c)-8)] ^= 0xff
-	case 2:
-		for i := 4; i < 12 && i < len(c); i++ {
-			c[i] = 0xff
+// c14CorruptCells returns a storage fault: every protected cell that is read comes back damaged, the kind
+// of damage cycling with the reads (truncated to half, one byte flipped, container length field set to all
+// ones, extended, cut to a length around the size of a search hash).
+func c14CorruptCells() func(table string, row, col int, cell []byte) []byte {
+	n := 0
+	return func(table string, row, col int, cell []byte) []byte {
+		if col < 2 || len(cell) < 8 {
+			return cell
 		}
-	default:
-		c = append(c, c[:min(30, len(c))]...)
+		n++
+		c := append([]byte{}, cell...)
+		switch n % 5 {
+		case 4:
+			return c[:min(len(c), 31+(n/5)%4)]
+		case 0:
+			return c[:len(c)/2]
+		case 1:
+			c[8+(n*7)%min(40, len(c)-8)] ^= 0xff
+		case 2:
+			for i := 4; i < 12 && i < len(c); i++ {
+				c[i] = 0xff
+			}
+		default:
+			c = append(c, c[:min(30, len(c))]...)
+		}
+		return c
 	}
-	return c
 }
